@@ -27,7 +27,8 @@ Starts(bpms, off) == StartsAcc(bpms, <<off>>, 2)
 
 (* absolute beat W + num/den  ->  ticks *)
 SegOf(bpms, W, num, den) ==
-    LET S == { k \in DOMAIN bpms : bpms[k].p * den <= (W * den + num) * 4800 }
+    \* p/4800 <= W + num/den, written so that no product leaves 32 bits (p is an integer: p <= floor of the right side)
+    LET S == { k \in DOMAIN bpms : bpms[k].p <= 4800 * W + (4800 * num) \div den }
     IN  IF S = {} THEN 1 ELSE CHOOSE k \in S : \A j \in S : j <= k
 BeatToTicks(bpms, off, W, num, den) ==
     LET k == SegOf(bpms, W, num, den)
@@ -36,7 +37,8 @@ BlAt(bpms, W, num, den) == bpms[SegOf(bpms, W, num, den)].bl
 (* the longer of the beat lengths on either side of a position: an object just before a tempo change is played in *)
 (* the tempo before it, although its nearest grid position may be the change itself                                 *)
 BlAround(bpms, W, num, den) ==
-    LET S == { k \in DOMAIN bpms : bpms[k].p * den < (W * den + num) * 4800 }
+    \* p/4800 < W + num/den  (an integer is below x exactly when it is below the ceiling of x)
+    LET S == { k \in DOMAIN bpms : bpms[k].p - 4800 * W < (4800 * num + den - 1) \div den }
         kb == IF S = {} THEN 1 ELSE CHOOSE k \in S : \A j \in S : j <= k
     IN  Max2(BlAt(bpms, W, num, den), bpms[kb].bl)
 
